@@ -156,6 +156,32 @@ def run(ctx):
         else:
             ctx.cov["traces_validated_against_impl"] += 1
 
+    # ---- a buffered (XML) body and its declared length: a body that is longer than its Content-Length, or shorter, is refused under every
+    # framing - also when a frame border (or an empty frame) falls exactly at the declared length
+    doc_ = b'<Tagging xmlns="http://s3.amazonaws.com/doc/2006-03-01/"><TagSet><Tag><Key>k</Key><Value>v</Value></Tag></TagSet></Tagging>'
+    lcases, lmeta = [], []
+    for tail_, declared in ((b"<!-- and thirty-six more bytes -->xx", len(doc_)), (b"", len(doc_)), (b"", len(doc_) + 5), (b"x", 0)):
+        wb_ = doc_ + tail_
+        cuts = sorted({0, 1, declared - 1, declared, declared + 1, len(wb_) // 2, len(wb_) - 1} & set(range(0, len(wb_) + 1)))
+        frs = [[wb_]] + [[wb_[:c], wb_[c:]] for c in cuts] + [[wb_[:c], b"", wb_[c:]] for c in cuts] + [[wb_[i:i + 1] for i in range(len(wb_))]]
+        for fr in frs:
+            lcases.append(dict(config=dict(host=None, auth=None, access="allow", route="none"),
+                               request=dict(method="PUT", uri=b"/my-bucket?tagging".hex(), headers=[["host", b"s3.example.com".hex()], ["content-length", str(declared).encode().hex()]],
+                                            body=dict(kind="stream", frames=[f.hex() for f in fr], transport_error=False))))
+            lmeta.append((len(wb_), declared, [len(f) for f in fr]))
+    for (blen, declared, fl), r_ in zip(lmeta, vlib.run_impl("svc", lcases)):
+        ctx.cov["evaluations"] += 1
+        be = [e for e in r_.get("events", []) if e.get("ev") == "backend"]
+        st = r_.get("response", {}).get("status")
+        good = blen == declared
+        ctx.count("e2e.declared-length." + ("delivered" if be else "refused"))
+        ctx.nontrivial(("declared-length", blen, declared, tuple(fl[:4]), bool(be), st))
+        if "panic" in r_ or bool(be) != good or (not good and not (400 <= (st or 0) < 500)):
+            ctx.violation(dict(stage="declared-length", kind="the outcome depends on the framing of the body: a buffered body of %d bytes declared as %d bytes was %s under this framing"
+                               % (blen, declared, "delivered to the backend" if be else "refused (status %s)" % st), frame_lengths=fl[:40], body_length=blen, content_length=declared))
+        else:
+            ctx.cov["traces_validated_against_impl"] += 1
+
     # ---- chunk-signed bodies
     gen = c08.gen_cases(ctx)[: (25 if ctx.quick else 120)]
     cases, meta = [], []
